@@ -191,33 +191,124 @@ Theorem C16_update_loop_writes :
   forall n t (k : st -> result) (P : result -> Prop) s,
     (forall s', od_tmpl (st_w s') = option_map (fun _ => t) (w_od (st_w s)) ->
                 w_pkg (st_w s') = w_pkg (st_w s) -> P (k s')) ->
-    (forall s', P (fail s')) ->
+    (forall s', w_pkg (st_w s') = w_pkg (st_w s) -> P (fail s')) ->
     P (update_loop n t s k).
 Proof. exact update_loop_writes. Qed.
 Print Assumptions C16_update_loop_writes.
 
+(** ** status.unpackedHash and the template move together: in EVERY pass - error-free or not, with
+    lost responses, conflicts, anything - the persisted unpackedHash stays what it was or becomes the
+    hash of the spec the pass started with; in the latter case the pull succeeded and, for a valid
+    and admissible package, the stored template is the render of that spec when the pass ends.
+    (So a retry that takes the "already unpacked" short cut never leaves a half-written
+    ObjectDeployment behind.) *)
+Theorem C16_hash_moves :
+  forall digest o s,
+    let p := w_pkg (st_w s) in let r := pass digest o s in
+    p_hash (stored_pkg r) = p_hash p \/
+    (p_hash (stored_pkg r) = Some (p_spec p) /\ o_pull o = true /\
+     (all_ok o = true -> od_tmpl (st_w (r_st r)) = Some (Some (spec_digest digest (p_spec p))))).
+Proof. exact (fun digest => hash_moves digest true). Qed.
+Print Assumptions C16_hash_moves.
+
+(** The stronger "unpackedHash = hash of the current spec => stored template = render of that spec"
+    is REFUTED for the code as it is: a pass for spec B that fails after its Update, an edit back
+    to A before the retry, and the short cut keeps B's render under A's hash (replayed on the real
+    controller by the corpus of checks/C16.py; reported as an observation, not part of C16's text,
+    which speaks about passes that process a changed spec). *)
+Theorem C16_hash_fit_refuted :
+  forall scoped,
+    let w := final wit_digest true scoped revert_steps (init_world wit_spec no_peers) [] [] in
+    p_spec (w_pkg w) = wit_spec /\ p_hash (w_pkg w) = Some wit_spec /\
+    od_tmpl w = Some (Some (spec_digest wit_digest wit_spec_b)) /\
+    spec_digest wit_digest wit_spec_b <> spec_digest wit_digest wit_spec /\
+    forallb ob_err (run wit_digest true scoped revert_steps (init_world wit_spec no_peers) [] [])
+      = false.
+Proof. exact hash_fit_refuted. Qed.
+Print Assumptions C16_hash_fit_refuted.
+
+(** ** uniqueInScope.  The other (Cluster)Packages are part of the world ([w_peers]); [listed true ps]
+    is the number of (Cluster)Packages carrying the manifest's package label in the scope of the
+    Package at hand (itself included if it carries the label).  If that number is at least two the
+    deployment is not written - for either List validateUnique may use ([scoped]), for Package and
+    ClusterPackage alike (the model is the same; a ClusterPackage has no peers elsewhere) - and
+    every error-free pass reports Invalid/ConstraintsFailed. *)
+Theorem C16_unique_unmet_blocks :
+  forall digest scoped o w f d,
+    o_unique o <> None -> 2 <= listed true (w_peers w) ->
+    let r := do_pass digest true scoped o w f d in
+    none_of is_od_write (st_log (r_st r)) = true /\ od_tmpl (st_w (r_st r)) = od_tmpl w.
+Proof. exact unique_unmet_blocks. Qed.
+Print Assumptions C16_unique_unmet_blocks.
+
+Theorem C16_unique_unmet_reported :
+  forall digest scoped o w f d,
+    o_unique o <> None -> 2 <= listed true (w_peers w) ->
+    let r := do_pass digest true scoped o w f d in
+    reach (w_pkg w) = true -> o_pull o = true -> o_load o = true -> r_err r = false ->
+    has_cond CInvalid true RConstraintsFailed (p_conds (stored_pkg r)) = true /\
+    p_hash (stored_pkg r) = Some (p_spec (w_pkg w)).
+Proof. exact unique_unmet_reported. Qed.
+Print Assumptions C16_unique_unmet_reported.
+
+(** REFUTED for the code as it is (F-C16b): validateUnique builds the label selector and drops it
+    (the result of Selector.Add is ignored, deployer.go:291) and does not restrict the List to the
+    namespace, so every (Cluster)Package of the cluster counts.  (1) a valid package that is unique
+    in its scope is not rolled out next to a stranger; (2) an unlabelled Package, for which the
+    constraint cannot be evaluated (validateUnique's own ErrNonExisting case), is rolled out. *)
+Theorem C16_unique_scope_refuted :
+  (let r := do_pass wit_digest true false uniq_oracle (init_world wit_spec one_stranger) [] [] in
+   all_ok (seen true one_stranger uniq_oracle) = true /\ r_err r = false /\
+   od_tmpl (st_w (r_st r)) = None /\
+   has_cond CInvalid true RConstraintsFailed (p_conds (stored_pkg r)) = true) /\
+  (let r := do_pass wit_digest true false uniq_oracle (init_world wit_spec unlabelled) [] [] in
+   cons_err (seen true unlabelled uniq_oracle) = true /\ r_err r = false /\
+   od_tmpl (st_w (r_st r)) = Some (Some (spec_digest wit_digest wit_spec))).
+Proof. exact unique_scope_refuted. Qed.
+Print Assumptions C16_unique_scope_refuted.
+
 (** ** History invariant.  For all histories (spec edits, API faults, third-party writes, passes
-    with arbitrary oracle outcomes) from a fresh Package: the stored ObjectDeployment's template is
-    the pre-created empty one or the render of a spec that was current at a pass in which the
-    package was valid and admissible. *)
-Theorem C16_od_history :
-  forall digest steps sp,
-    od_ok (goods_of digest true all_ok steps (init_world sp) [] []) (final digest true steps (init_world sp) [] []).
-Proof. exact (fun digest steps sp => od_history_init digest true steps sp). Qed.
-Print Assumptions C16_od_history.
+    with arbitrary oracle outcomes) from a fresh Package among any peers: the stored
+    ObjectDeployment's template is the pre-created empty one or the render of a spec that was
+    current at a pass in which the package was valid and admissible.  Proved for the List
+    restricted to the labelled packages of the scope (fixes/C16-unique-scope.diff). *)
+Theorem C16_od_history_scoped :
+  forall digest steps sp ps,
+    od_ok (goods_of digest true true (fun ps o => all_ok (seen true ps o)) steps (init_world sp ps) [] [])
+          (final digest true true steps (init_world sp ps) [] []).
+Proof. exact (fun digest steps sp ps => od_history_init digest true true steps sp ps). Qed.
+Print Assumptions C16_od_history_scoped.
+
+(** For the code as it is: the same with "valid and admissible as the controller judges it", i.e.
+    uniqueness counted over every (Cluster)Package of the cluster - what is missing is the scope. *)
+Theorem C16_od_history_partial :
+  forall digest steps sp ps,
+    od_ok (goods_of digest true false (fun ps o => all_ok (seen false ps o)) steps (init_world sp ps) [] [])
+          (final digest true false steps (init_world sp ps) [] []).
+Proof. exact (fun digest steps sp ps => od_history_init digest true false steps sp ps). Qed.
+Print Assumptions C16_od_history_partial.
 
 (** REFUTED for the code before cb58cda (consequence of F-C16). *)
 Theorem C16_v0_od_history_refuted :
   exists steps sp,
-    od_okb (goods_of wit_digest false all_ok steps (init_world sp) [] []) (final wit_digest false steps (init_world sp) [] []) = false.
+    od_okb (goods_of wit_digest false true (fun ps o => all_ok (seen true ps o)) steps (init_world sp no_peers) [] [])
+           (final wit_digest false true steps (init_world sp no_peers) [] []) = false.
 Proof. exact od_history_refuted. Qed.
 Print Assumptions C16_v0_od_history_refuted.
 
-(** ** The run-time monitor accepts every history of the model. *)
-Theorem C16_monitor_sound :
-  forall t sp steps, verdict_all (monitor (t, sp, steps, model_obs t sp steps)) = true.
-Proof. exact monitor_sound. Qed.
-Print Assumptions C16_monitor_sound.
+(** ** The run-time monitor accepts every history of the model with the scoped List, and every
+    history of the code as it is without uniqueInScope constraint or among plain peers (the Package
+    labelled, nobody else around that is unlabelled or elsewhere). *)
+Theorem C16_monitor_sound_scoped :
+  forall sc t sp ps steps, verdict_all (monitor (sc, t, sp, ps, steps, model_obs_scoped t sp ps steps)) = true.
+Proof. exact monitor_sound_scoped. Qed.
+Print Assumptions C16_monitor_sound_scoped.
+
+Theorem C16_monitor_sound_partial :
+  forall sc t sp ps steps, plain ps = true \/ no_unique steps = true ->
+    verdict_all (monitor (sc, t, sp, ps, steps, model_obs t sp ps steps)) = true.
+Proof. exact monitor_sound_partial. Qed.
+Print Assumptions C16_monitor_sound_partial.
 
 (** ** Non-vacuity: the hypotheses of the implications are satisfiable, and the interesting
     branches are really taken. *)
